@@ -65,28 +65,20 @@ theorem keys_exactly_expected (c : Cfg) (offsets : List Nat) (out : Out)
 
 /-! ## 3. scale records -/
 
-/-- every slice that does not end at the OFM depth has a length that is a multiple of the core count
-    (always true on one core; the scheduler's slices are multiples of 16 or of the block depth) -/
-def RegularSlices (q : SReq) : Prop :=
-  ∀ s ∈ slices q.offsets, s.2.2 % q.ncores = 0 ∨ s.2.1 + s.2.2 = q.fullDepth
-
-instance (q : SReq) : Decidable (RegularSlices q) := by unfold RegularSlices; infer_instance
-
-/- Full statement (FALSE of the unchanged code, see `scale_count_witness`):
-     ∀ c offsets out, ValidReq (reqOf c offsets) → biases/scales have one entry per channel →
-       encodeTensor c offsets = .ok out →
-       ScaleCountOk (reqOf c offsets) (artefactOf c out) ∧ (the scale section of every (core, slice) decodes to
-       exactly the records of `chanOf ncores core off len`).
-   Proved below with the additional hypothesis `RegularSlices`: the Python slice
-   `biases[off+core : off+core+len : ncores]` stops at `off+core+len`, one channel beyond the slice for
-   `core ≥ 1` unless `ncores ∣ len` or the list ends at `off+len`. -/
+/- History: before the repair `fixed: property=C08 PENDING-1` the code sliced
+   `biases[off+core : off+core+len : ncores]`, which ends one channel beyond the slice for `core ≥ 1`
+   unless `ncores ∣ len`; the statement below was then provable only for "regular" slicings
+   (`scale_count_partial`) and `scale_count_witness` proved by `decide` that for 2 cores, 8 channels,
+   offsets [0, 3, 8] the range (core 1, slice 0) held records for channels 1 and 3 (weights: channel 1
+   only) and channel 3 had two records.  The repaired code slices the depth slice first
+   (`biases[off : off+len][core :: ncores]`); the same configuration is now `scale_count_former_witness`. -/
 
 /-- The scale section of every (core, slice) holds exactly one 10-byte record per channel of the slice
     whose in-slice index is `≡ core (mod ncores)`, in ascending order, and the Spec decoder reads
-    back that channel's `(bias, multiplier, shift)` — for regular slicings. -/
-theorem scale_count_partial (c : Cfg) (offsets : List Nat) (out : Out)
+    back that channel's `(bias, multiplier, shift)` — for every request in the Spec's quantifier. -/
+theorem scale_count (c : Cfg) (offsets : List Nat) (out : Out)
     (hv : ValidReq (reqOf c offsets)) (hbl : c.biases.length = c.fullDepth) (hsl : c.scales.length = c.fullDepth)
-    (hreg : RegularSlices (reqOf c offsets)) (h : encodeTensor c offsets = .ok out) :
+    (h : encodeTensor c offsets = .ok out) :
     ScaleCountOk (reqOf c offsets) (artefactOf c out) ∧
     ∀ p ∈ (expected (reqOf c offsets)).zip (artefactOf c out).ranges,
       ScaleRecordsAt (reqOf c offsets) out.stream (expOf c) p.1 p.2 := by
@@ -109,24 +101,22 @@ theorem scale_count_partial (c : Cfg) (offsets : List Nat) (out : Out)
       have : activeCores (reqOf c offsets) ≤ c.ncores := Nat.min_le_left _ _
       omega
     have hg := hf.good.rng p'.2 hr
-    have hreg' := hreg _ hsl'
     obtain ⟨_, h2, h3, h4⟩ := made_scale c _ _ _ _ p'.2 out.stream hm hg (by rw [hbl, hsl]) hn hcore'
-      (by rw [hbl]; exact hle) (by rw [hbl]; exact hreg')
+      (by rw [hbl]; exact hle)
     exact ⟨h2, h3, h4⟩
   exact ⟨fun p hp => (key p hp).1, fun p hp => (key p hp).2⟩
 
-/-- The excluded case is real (DESIGN.md section 8 #11, reproduced on the implementation by the check):
-    two cores, 8 channels, block depth 8, depth offsets [0, 3, 8] is inside the Spec's quantifier, the
-    model succeeds, (core 1, slice 0) writes records for channels 1 **and 3** although its weight stream
-    holds channel 1 only, `ScaleCountOk` fails, and channel 3 has two records overall. -/
-theorem scale_count_witness :
+/-- The configuration of the former finding (DESIGN.md section 8 #11: two cores, 8 channels, block depth
+    8, depth offsets [0, 3, 8]): every range now records exactly the channels whose weights it holds, the
+    whole executable layout Spec accepts the tensor, and channel 3 has one record. -/
+theorem scale_count_former_witness :
     ValidReq (reqOf witnessCfg [0, 3, 8]) ∧
     (encodeTensor witnessCfg [0, 3, 8]).toOption.map
         (fun out => out.ranges.map fun r => (r.core, r.depth, r.scaleCh, r.weightCh))
-      = some [(0, 0, [0, 2], [0, 2]), (1, 0, [1, 3], [1]), (0, 3, [3, 5, 7], [3, 5, 7]), (1, 3, [4, 6], [4, 6])] ∧
+      = some [(0, 0, [0, 2], [0, 2]), (1, 0, [1], [1]), (0, 3, [3, 5, 7], [3, 5, 7]), (1, 3, [4, 6], [4, 6])] ∧
     (encodeTensor witnessCfg [0, 3, 8]).toOption.map
-        (fun out => decide (ScaleCountOk (reqOf witnessCfg [0, 3, 8]) (artefactOf witnessCfg out))) = some false ∧
-    (encodeTensor witnessCfg [0, 3, 8]).toOption.map (fun out => (out.ranges.flatMap Range.scaleCh).count 3) = some 2 := by
+        (fun out => decide (LayoutOk (reqOf witnessCfg [0, 3, 8]) (artefactOf witnessCfg out))) = some true ∧
+    (encodeTensor witnessCfg [0, 3, 8]).toOption.map (fun out => (out.ranges.flatMap Range.scaleCh).count 3) = some 1 := by
   decide +kernel
 
 /-! ## 4. weight sections and the partition of the channels -/
@@ -165,14 +155,12 @@ theorem expected_channels_partition (q : SReq) (hv : ValidReq q) :
     (∀ e ∈ expected q, (e.chans q).Nodup) :=
   chans_partition q hv
 
-/-- Model side: for regular slicings every output channel below the OFM depth has its record in the
-    scale section of exactly one range and its weights in the weight section of the same range, and
-    no range mentions a channel twice or a channel outside `[0, depth)`.
-    (Without `RegularSlices` this is false for the records — `scale_count_witness` — but
-    still true for the weights, `weight_sections`.) -/
+/-- Model side: every output channel below the OFM depth has its record in the scale section of exactly
+    one range and its weights in the weight section of the same range, and no range mentions a channel
+    twice or a channel outside `[0, depth)`. -/
 theorem channels_once (c : Cfg) (offsets : List Nat) (out : Out)
     (hv : ValidReq (reqOf c offsets)) (hbl : c.biases.length = c.fullDepth) (hsl : c.scales.length = c.fullDepth)
-    (hreg : RegularSlices (reqOf c offsets)) (hw : c.doWeights = true) (h : encodeTensor c offsets = .ok out) :
+    (hw : c.doWeights = true) (h : encodeTensor c offsets = .ok out) :
     (∀ ch, ch < c.fullDepth → ∃ r ∈ out.ranges, ch ∈ r.scaleCh ∧ ch ∈ r.weightCh ∧
         ∀ r' ∈ out.ranges, (ch ∈ r'.scaleCh ∨ ch ∈ r'.weightCh) → r' = r) ∧
     (∀ r ∈ out.ranges, r.scaleCh.Nodup ∧ r.weightCh = r.scaleCh ∧ ∀ ch ∈ r.scaleCh, ch < c.fullDepth) := by
@@ -192,8 +180,7 @@ theorem channels_once (c : Cfg) (offsets : List Nat) (out : Out)
       have : activeCores (reqOf c offsets) ≤ c.ncores := Nat.min_le_left _ _
       omega
     have hg := hf.good.rng r hr
-    exact ⟨(made_scale c _ _ _ _ r out.stream hm hg (by rw [hbl, hsl]) hn hcore' (by rw [hbl]; exact hle)
-              (by rw [hbl]; exact hreg _ hsl')).1,
+    exact ⟨(made_scale c _ _ _ _ r out.stream hm hg (by rw [hbl, hsl]) hn hcore' (by rw [hbl]; exact hle)).1,
            (made_weights c _ _ _ _ r out.stream hm hg hw hn hcore' hle).1⟩
   refine ⟨?_, ?_⟩
   · intro ch hlt
@@ -250,25 +237,34 @@ theorem double_buffer_holds (c : Cfg) (offsets : List Nat) (out : Out) (h : enco
     have : i % 2 = 1 := by omega
     rw [this]; exact hb
 
-/-- … but **one** buffer of `double_buffer_sizes[0]` bytes — what `propose_weight_buffering` allocates
-    when double buffering does not fit yet several slices remain — does not: witness with slices
-    `[0,1,3]`, sizes (32, 64). (Reproduced on the scheduler by the check: known finding.) -/
+/-- … and **one** buffer of `max(double_buffer_sizes)` bytes — what the repaired
+    `propose_weight_buffering` allocates when it keeps several slices but only one buffer — holds every slice. -/
+theorem single_buffer_holds (c : Cfg) (offsets : List Nat) (out : Out) (h : encodeTensor c offsets = .ok out) (i : Nat) :
+    dmaSum (out.rawRanges.filter (fun r => r.slice = i)) ≤ [max out.dbs.1 out.dbs.2].getD (i % 1) 0 := by
+  have hb := double_buffer_bound c offsets out h i
+  unfold getDbs at hb
+  rw [Nat.mod_one]
+  show _ ≤ max out.dbs.1 out.dbs.2
+  split at hb <;> omega
+
+/-- One buffer of `double_buffer_sizes[0]` bytes (what the code allocated before
+    `fixed: property=C08 PENDING-5`) would not: slices `[0,1,3]`, sizes (32, 64). -/
 theorem single_buffer_witness :
     (encodeTensor unevenCfg [0, 1, 3]).toOption.map (fun out => out.dbs) = some (32, 64) ∧
     ¬ BuffersOk [32] [32, 64] ∧ BuffersOk [32, 64] [32, 64] := by
   decide +kernel
 
-/-- **Layout part of C08, assembled**: for every request in the Spec's quantifier with regular slices
-    and one bias / scale entry per channel, every encoder, the tensor the model assembles satisfies
+/-- **Layout part of C08, assembled**: for every request in the Spec's quantifier with one bias / scale
+    entry per channel, every encoder, the tensor the model assembles satisfies
     the whole executable layout Spec (`LayoutOk` = keys ∧ alignment ∧ order/disjointness ∧ record count ∧
     double-buffer bound) — the same checker the harness applies to the implementation's tensors. -/
 theorem layout_ok (c : Cfg) (offsets : List Nat) (out : Out)
     (hv : ValidReq (reqOf c offsets)) (hbl : c.biases.length = c.fullDepth) (hsl : c.scales.length = c.fullDepth)
-    (hreg : RegularSlices (reqOf c offsets)) (h : encodeTensor c offsets = .ok out) :
+    (h : encodeTensor c offsets = .ok out) :
     LayoutOk (reqOf c offsets) (artefactOf c out) := by
   obtain ⟨h1, h2, h3⟩ := ranges_disjoint_ordered_aligned c offsets out h
   have hart := h3 hv.2.2.2.2.2
-  refine ⟨keys_exactly_expected c offsets out hv h, ?_, ?_, (scale_count_partial c offsets out hv hbl hsl hreg h).1,
+  refine ⟨keys_exactly_expected c offsets out hv h, ?_, ?_, (scale_count c offsets out hv hbl hsl h).1,
     double_buffer_spec c offsets out hv h⟩
   · rw [hart]; exact h1
   · rw [hart]; exact h2
@@ -327,26 +323,33 @@ theorem cache_key_function {ρ κ β : Type} [DecidableEq κ] (key : ρ → κ) 
   · intro hfun reqs hS
     exact cachedRun_sound key fresh S hfun reqs [] (by intro e he; simp at he) hS
 
-/-- What `WeightCompressionConfig` leaves out: the weight key is blind to the accelerator, the IFM bit
-    depth, the transpose-convolution flip, the depth offsets beyond their `hash(str(..))`, the block
-    depth beyond its clamp, and to the data behind the two value ids. -/
-theorem cache_key_omits (r : Req) (acc bits : Nat) (flip : Bool) (offs : List Nat) (bd wdata sdata : Nat) :
-    wccKey { r with accelerator := acc, ifmBits := bits, opFlip := flip, depthOffsets := offs, blockDepth := bd,
+/-- What `WeightCompressionConfig` (with the IFM bit depth, `fixed: property=C08 PENDING-2`) still leaves
+    out: the accelerator — constant while a cache lives, since `compiler_driver` now empties the cache
+    (`PENDING-4`) —, the transpose-convolution flip, the depth offsets beyond their `hash(str(..))`, the
+    block depth beyond its clamp (harmless: every core's share still covers its channels), and the data
+    behind the two value ids (the ids are per tensor; the one value-derived id now includes the kernel
+    shape, `PENDING-3`). -/
+theorem cache_key_omits (r : Req) (acc : Nat) (flip : Bool) (offs : List Nat) (bd wdata sdata : Nat) :
+    wccKey { r with accelerator := acc, opFlip := flip, depthOffsets := offs, blockDepth := bd,
                     weightData := wdata, scaleData := sdata } = wccKey r := rfl
 
-/-- Hence any encoder that looks at the IFM bit depth (the real one does: IFM block depth 16 vs 32, and
-    the traversal choice) makes reuse unsound: int8 request first, int16 request second, same weight
-    tensor — the second is answered with the first one's encoding.  The two-level look-up of the
-    model classifies the second request as a weights-only hit. -/
-theorem cache_stale_witness :
-    wccKey reqInt8 = wccKey reqInt16 ∧
-    cachedRun wccKey (fun r => r.ifmBits) [] [reqInt8, reqInt16] = [(reqInt8, 8), (reqInt16, 8)] ∧
-    cacheOutcomes [] [reqInt8, reqInt16] = [.miss, .hitWeights] := by
+/-- The key now separates requests that differ in the IFM bit depth: for every pair of requests,
+    equal weight keys imply equal bit depths … -/
+theorem cache_key_has_ifm_bits (a b : Req) (h : wccKey a = wccKey b) : a.ifmBits = b.ifmBits :=
+  congrArg WccKey.ifmBits h
+
+/-- … so the former witness (int8 request, then int16 request on the same weight tensor; before the
+    repair the second was a weights-only hit answered with the first one's stream) is two misses, and a
+    memo table over this key answers an encoder that reads the bit depth correctly. -/
+theorem cache_former_witness :
+    wccKey reqInt8 ≠ wccKey reqInt16 ∧
+    cachedRun wccKey (fun r => r.ifmBits) [] [reqInt8, reqInt16] = [(reqInt8, 8), (reqInt16, 16)] ∧
+    cacheOutcomes [] [reqInt8, reqInt16] = [.miss, .miss] := by
   decide
 
 /-! ## Non-vacuity -/
 
-example : ValidReq (reqOf witnessCfg [0, 4, 8]) ∧ RegularSlices (reqOf witnessCfg [0, 4, 8]) := by decide
+example : ValidReq (reqOf witnessCfg [0, 4, 8]) ∧ ValidReq (reqOf witnessCfg [0, 1, 2, 5, 8]) := by decide
 example : (encodeTensor witnessCfg [0, 4, 8]).toOption.map (fun out => out.ranges.map fun r => (r.core, r.depth, r.scaleCh, r.weightCh))
     = some [(0, 0, [0, 2], [0, 2]), (1, 0, [1, 3], [1, 3]), (0, 4, [4, 6], [4, 6]), (1, 4, [5, 7], [5, 7])] := by
   decide +kernel
